@@ -63,13 +63,17 @@ func (m *PluginManager) ListInstalledPlugins() ([]PluginMetadata, error) {
 			if err != nil {
 				return nil, fmt.Errorf("couldn't list plugin directory: %w", err)
 			}
-			curOut[i].Versions = make([]Version, len(pluginVersions))
-			for j, version := range pluginVersions {
+			curOut[i].Versions = make([]Version, 0, len(pluginVersions))
+			for _, version := range pluginVersions {
+				if strings.HasPrefix(version.Name(), ".") {
+					// Staging directory of an installation in progress (or an interrupted one).
+					continue
+				}
 				versionNumber, err := semver.NewVersion(version.Name())
 				if err != nil {
 					return nil, fmt.Errorf("couldn't parse plugin '%s' version number '%s': %w", curOut[i].Reference.String(), version.Name(), err)
 				}
-				curOut[i].Versions[j] = Version{Number: versionNumber}
+				curOut[i].Versions = append(curOut[i].Versions, Version{Number: versionNumber})
 			}
 			sort.Slice(curOut[i].Versions, func(j, k int) bool {
 				return curOut[i].Versions[j].Number.GreaterThan(curOut[i].Versions[k].Number)
@@ -182,16 +186,22 @@ func (m *PluginManager) Install(ctx context.Context, name string, constraint *se
 
 	url := manifest.GetBinaryDownloadURL(version.Number)
 
-	newPluginDir := filepath.Join(getPluginDir(), repoSlug, fmt.Sprintf("octosql-plugin-%s", name), version.Number.String())
+	pluginDir := filepath.Join(getPluginDir(), repoSlug, fmt.Sprintf("octosql-plugin-%s", name))
+	newPluginDir := filepath.Join(pluginDir, version.Number.String())
+	// The plugin is downloaded and unpacked in a staging directory, which ListInstalledPlugins ignores,
+	// and only then moved into place with a rename. This way an interrupted installation
+	// never leaves a half-installed version behind.
+	stagingDir := filepath.Join(pluginDir, ".installing-"+version.Number.String())
+	oldDir := filepath.Join(pluginDir, ".old-"+version.Number.String())
 
-	if err := os.RemoveAll(newPluginDir); err != nil {
-		return fmt.Errorf("couldn't remove old plugin directory: %w", err)
+	if err := os.RemoveAll(stagingDir); err != nil {
+		return fmt.Errorf("couldn't remove old plugin staging directory: %w", err)
 	}
 
-	if err := os.MkdirAll(newPluginDir, os.ModePerm); err != nil {
+	if err := os.MkdirAll(stagingDir, os.ModePerm); err != nil {
 		return fmt.Errorf("couldn't create plugins directory: %w", err)
 	}
-	archiveFilePath := filepath.Join(newPluginDir, "archive.tar.gz")
+	archiveFilePath := filepath.Join(stagingDir, "archive.tar.gz")
 
 	// Anonymous function to take care of defers before we move forward.
 	err = func() error {
@@ -221,12 +231,28 @@ func (m *PluginManager) Install(ctx context.Context, name string, constraint *se
 		return err
 	}
 
-	if err := archiver.NewTarGz().Unarchive(archiveFilePath, newPluginDir); err != nil {
+	if err := archiver.NewTarGz().Unarchive(archiveFilePath, stagingDir); err != nil {
 		return fmt.Errorf("couldn't unarchive plugin archive: %w", err)
 	}
 
 	if err := os.Remove(archiveFilePath); err != nil {
 		return fmt.Errorf("couldn't remove plugin archive: %w", err)
+	}
+
+	if err := os.RemoveAll(oldDir); err != nil {
+		return fmt.Errorf("couldn't remove old plugin directory: %w", err)
+	}
+	if _, err := os.Stat(newPluginDir); err == nil {
+		// This version is already installed, move it out of the way.
+		if err := os.Rename(newPluginDir, oldDir); err != nil {
+			return fmt.Errorf("couldn't move old plugin directory: %w", err)
+		}
+	}
+	if err := os.Rename(stagingDir, newPluginDir); err != nil {
+		return fmt.Errorf("couldn't move plugin into place: %w", err)
+	}
+	if err := os.RemoveAll(oldDir); err != nil {
+		return fmt.Errorf("couldn't remove old plugin directory: %w", err)
 	}
 
 	if err := registerFileExtensions(plugin.Name, plugin.FileExtensions); err != nil {
